@@ -190,8 +190,10 @@ def eval_ref_expr(expr_kind, label_val, off):
 
 
 def check_C08(ctx, prog, real, recs):
-    """Every label-dependent value baked into the output equals the expression evaluated on FINAL label offsets."""
+    """Every label-dependent value baked into the output equals the expression evaluated on FINAL label offsets --
+    the offsets the labels really have in the output (recomputed from the per-item blobs), not the reported table."""
     labels = dict(real['labels'])
+    labels.update(label_offsets_from_chunks(prog['source'], real['chunks']))
     by_line = {}
     for r in recs:
         by_line.setdefault(r['line'], []).append(r)
